@@ -174,7 +174,7 @@ func runKVCase(r *rec, rnd *rand.Rand, id, dir string, sets []keySet, rounds, pr
 		})
 		if pn {
 			class := "C20/kv/panic-flush"
-			if cur != nil && onlyEmptyKeyBlock(cur.chunks[round], flushBS) && strings.Contains(what, "buildNodes") {
+			if cur != nil && onlyEmptyKeyBlock(cur.chunks[round], flushBS) && isBuildEmptyKeyPanic(what) {
 				class = "C20/trie/build-only-empty-key"
 			}
 			var w map[string]interface{}
@@ -284,6 +284,19 @@ func runStoreCase(r *rec, rnd *rand.Rand, id, dir string, ks keySet, probeMax in
 	s := index.NewIndexKVStore(fam, 16, time.Minute)
 	seq := rnd.Uint32() >> 1
 	var ps []pair
+	// which (bucket,key) the harness created since the last flush, split like the store splits them:
+	// PrepareFlush moves "mutable" to "immutable" when there is no (or an empty) immutable generation
+	type memKey struct {
+		bucket uint32
+		key    string
+	}
+	var mutGen, immGen []memKey
+	prepare := func() {
+		s.PrepareFlush()
+		if len(immGen) == 0 {
+			immGen, mutGen = mutGen, nil
+		}
+	}
 	stageWit := func(or *oracle, stage string) witFn {
 		return func(op string, probe []byte, extra map[string]interface{}) map[string]interface{} {
 			w := map[string]interface{}{"case": id, "bucket": bucketID, "generator": ks.Kind, "stage": stage, "operation": op, "keys": or.witnessKeys(probe)}
@@ -330,22 +343,38 @@ func runStoreCase(r *rec, rnd *rand.Rand, id, dir string, ks keySet, probeMax in
 				}
 			}
 			ps = append(ps, pair{append([]byte{}, k...), got})
+			mutGen = append(mutGen, memKey{bucketID, string(k)})
 			// also put something in a neighbour bucket: it must never show up in ours
 			if rnd.Intn(8) == 0 {
-				_, _, _ = s.GetOrCreateValue(otherBucket, append([]byte("other-"), k...), func() (uint32, error) { return 0xdead0000 + uint32(len(ps)), nil })
+				ok := append([]byte("other-"), k...)
+				if _, isNew, err := s.GetOrCreateValue(otherBucket, ok, func() (uint32, error) { return 0xdead0000 + uint32(len(ps)), nil }); err == nil && isNew {
+					mutGen = append(mutGen, memKey{otherBucket, string(ok)})
+				}
 			}
 		}
 		return true
 	}
 	flush := func(stage string) bool {
 		var err error
-		if pn, what := guard(func() { s.PrepareFlush(); err = s.Flush() }); pn {
+		if pn, what := guard(func() { prepare(); err = s.Flush() }); pn {
 			class := "C20/store/panic-flush"
-			if strings.Contains(what, "buildNodes") && strings.Contains(stage, "only-empty") {
+			// the block handed to the trie builder for our bucket = its keys in the immutable generation
+			// (flush block size is MaxInt16); known defect only if that block is exactly the empty key
+			var block []string
+			for _, mk := range immGen {
+				if mk.bucket == bucketID {
+					block = append(block, mk.key)
+				}
+			}
+			if isBuildEmptyKeyPanic(what) && len(block) == 1 && block[0] == "" {
 				class = "C20/trie/build-only-empty-key"
 			}
-			r.viol(class, fmt.Sprintf("[%s] IndexKVStore.Flush panicked: %s", stage, what), map[string]interface{}{"case": id, "desc": desc})
+			r.viol(class, fmt.Sprintf("[%s] IndexKVStore.Flush of a generation holding %d keys of bucket %d panicked: %s", stage, len(block), bucketID, what),
+				map[string]interface{}{"case": id, "desc": desc, "flushed_block_keys_hex": hexStrs(block, 32)})
 			return false
+		}
+		if err == nil {
+			immGen = nil
 		}
 		if err != nil {
 			r.viol("C20/store/flush-error", fmt.Sprintf("[%s] Flush: %v", stage, err), nil)
@@ -368,26 +397,20 @@ func runStoreCase(r *rec, rnd *rand.Rand, id, dir string, ks keySet, probeMax in
 		i := rnd.Intn(4)
 		parts[i] = append(parts[i], k)
 	}
-	onlyEmpty := func(part [][]byte) string {
-		if len(part) == 1 && len(part[0]) == 0 {
-			return " only-empty-key"
-		}
-		return ""
-	}
 	if !create(parts[0], "memory") {
 		return
 	}
 	check("memory")
-	s.PrepareFlush() // parts[0] now immutable
+	prepare() // parts[0] now immutable
 	if !create(parts[1], "immutable+memory") {
 		return
 	}
 	check("immutable+memory")
-	if !flush("flush#1" + onlyEmpty(parts[0])) { // flushes parts[0]
+	if !flush("flush#1") { // flushes parts[0]
 		return
 	}
 	check("flushed+memory")
-	if !flush("flush#2" + onlyEmpty(parts[1])) { // flushes parts[1]
+	if !flush("flush#2") { // flushes parts[1]
 		return
 	}
 	if !create(parts[2], "2 files+memory") {
@@ -405,7 +428,7 @@ func runStoreCase(r *rec, rnd *rand.Rand, id, dir string, ks keySet, probeMax in
 		// the store keeps reading through its old snapshot until the next flush; both must answer alike
 		check("compacted(old snapshot)+memory")
 	}
-	if !flush("flush#3" + onlyEmpty(parts[2])) {
+	if !flush("flush#3") {
 		return
 	}
 	if !create(parts[3], "merged+file+memory") {
